@@ -244,6 +244,15 @@ fn apply_permutation(state: &mut [BaseElement; STATE_WIDTH]) {
     }
 }
 
+/// Verification hook: exposes the (private) permutation to the conformance harness in /verif.
+/// Compiled only with `--cfg winterfell_verif`.
+#[cfg(winterfell_verif)]
+impl Rp62_248 {
+    pub fn verif_apply_permutation(state: &mut [BaseElement; STATE_WIDTH]) {
+        apply_permutation(state)
+    }
+}
+
 /// Rescue-XLIX round function.
 #[inline(always)]
 fn apply_round(state: &mut [BaseElement; STATE_WIDTH], round: usize) {
